@@ -171,7 +171,8 @@ fn slice_array_folded_case(n: usize, mask: u8) {
     }
 }
 macro_rules! slice_array_folded {
-    ($name:ident, $n:expr, $($mask:expr),*) => {
+    ($(#[$m:meta])* $name:ident, $n:expr, $($mask:expr),*) => {
+        $(#[$m])*
         #[kani::proof]
         #[kani::unwind(7)]
         #[kani::stub(alloc::fmt::format, crate::verif_common::stub_format)]
@@ -181,7 +182,9 @@ macro_rules! slice_array_folded {
         }
     };
 }
+#[cfg(feature = "verif_experimental")] // 1500 s timeout at 9.6 GB
 slice_array_folded!(slice_array_folded_len2, 2, 7);
+#[cfg(feature = "verif_experimental")] // 1500 s timeout at 9.6 GB
 slice_array_folded!(slice_array_folded_len3, 3, 5);
 
 fn str_case(which: u8) -> (&'static str, usize, [&'static str; 4]) {
